@@ -1,3 +1,106 @@
-(* C55 — placeholder; theorems follow *)
+(* C55 — Worktree streams and archives contain exactly the tree.
+   Only statements here; every proof is [exact <lemma>].
+   Model.v: the stream protocol of gix-worktree-stream (writer: enc_entries; reader: decode = Stream::next_entry +
+   <Entry as Read>::read driven by a consumer with a cyclic schedule of buffer sizes), the tree walk of from_tree
+   (walk/visit_entries with the delegate's path stack), additional entries, and gix-archive's tar header fields.
+   Spec.v: tree_files = the plain depth-first listing of the blobs, executables and symlinks of a tree with their
+   slash-joined paths, minus export-ignored paths. *)
+From Coq Require Import ZArith List Permutation.
 From GixV.Base Require Import Bytes BytesFacts Outcome.
-From GixV.C55 Require Import Model.
+From GixV.C55 Require Import Model Spec ProofsWalk ProofsRT ProofsTop.
+Import ListNotations.
+Local Open Scope N_scope.
+
+(* Protocol round trip.  For every list of entries (any path, id, kind; content either of known length or framed in
+   arbitrary pieces of 1..65535 bytes as write_stream produces them) and every schedule of read-buffer sizes >= 1,
+   reading the written stream yields exactly those entries: same path, id, kind, announced length and content,
+   in order, and then the regular end of the stream.  [wf_entry]: ids have 20 bytes, lengths are below isize::MAX. *)
+Theorem stream_roundtrip : forall ws sizes, Forall wf_entry ws -> sizes_pos sizes ->
+  exists es, decode sizes (enc_entries ws) = (es, EndOk) /\ map observed es = map expected ws.
+Proof. exact L_stream_RT. Qed.
+
+(* The tree walk.  For every tree whose names contain no slash and every export-ignore predicate, the walk
+   terminates without panic within its fuel and writes exactly the files of the tree (Spec.tree_files), each once
+   (a permutation: the walk is breadth-first, the listing depth-first). *)
+Theorem tree_walk_each_file_once : forall ign root, names_ok root = true ->
+  exists ws, tree_entries ign root = Ok ws /\ Permutation ws (tree_files ign root).
+Proof. exact L_tree_entries_once. Qed.
+
+(* The delegate's path stack is balanced: popping after pushing a slash-free name restores any path. *)
+Theorem path_push_pop : forall p name, no_slash name = true -> pop_element (push_element p name) = p.
+Proof. exact pop_push. Qed.
+
+(* A file used as the source of an additional entry is framed in pieces of 1..65535 bytes that add up to it. *)
+Theorem file_source_chunks : forall c,
+  Forall chunk_ok (file_chunks (S (length c)) c) /\ concat (file_chunks (S (length c)) c) = c.
+Proof. intros c. apply file_chunks_spec. apply Nat.lt_succ_diag_r. Qed.
+
+(* End to end.  Streaming a tree with additional entries and consuming it with any read sizes >= 1 yields: first
+   every blob, executable and symlink of the tree exactly once (some order) with its path, id, kind and content,
+   then the additional entries in the order given, with their content (file-backed ones with unknown length). *)
+Theorem from_tree_stream_delivers_tree_and_extras : forall ign root extras sizes,
+  names_ok root = true -> Forall wf_entry (tree_files ign root) -> Forall wf_extra extras -> sizes_pos sizes ->
+  exists s ws es,
+    stream_of ign root extras = Ok s /\ Permutation ws (tree_files ign root) /\
+    decode sizes s = (es, EndOk) /\
+    map observed es = map expected ws ++ map expected_extra extras.
+Proof. exact L_from_tree_stream. Qed.
+
+(* gix-archive (tar): a stream entry becomes a header with the prefixed path; blobs are regular files with mode
+   0644, executables 0755, both with the content as data; symlinks carry the content as link name and size 0. *)
+Theorem tar_header_fields : forall prefix e,
+  t_path (tar_item_of prefix e) = prefix ++ i_path (r_info e) /\
+  match i_kind (r_info e) with
+  | KBlob => t_type (tar_item_of prefix e) = TRegular /\ t_mode (tar_item_of prefix e) = 420 /\
+             t_data (tar_item_of prefix e) = r_content e /\ t_size (tar_item_of prefix e) = blen (r_content e)
+  | KExe => t_type (tar_item_of prefix e) = TRegular /\ t_mode (tar_item_of prefix e) = 493 /\
+            t_data (tar_item_of prefix e) = r_content e /\ t_size (tar_item_of prefix e) = blen (r_content e)
+  | KLink => t_type (tar_item_of prefix e) = TSymlink /\ t_link (tar_item_of prefix e) = r_content e /\
+             t_size (tar_item_of prefix e) = 0
+  | KTree | KCommit => t_type (tar_item_of prefix e) = TDirectory
+  end.
+Proof. exact L_tar_item. Qed.
+
+(* ---- non-vacuity ------------------------------------------------------------------------------------------- *)
+
+Definition ex_oid : bytes := repeat x07 20.
+Definition ex_ws : list wentry :=
+  [ {| w_path := bs "d/a"; w_oid := ex_oid; w_kind := KExe; w_src := Known (bs "hello") |};
+    {| w_path := bs "x"; w_oid := ex_oid; w_kind := KBlob; w_src := Chunked [bs "ab"; bs "c"] |};
+    {| w_path := bs "l"; w_oid := ex_oid; w_kind := KLink; w_src := Known [] |} ].
+
+Example roundtrip_example :
+  Forall wf_entry ex_ws /\ sizes_pos [2%nat; 1%nat] /\
+  map observed (fst (decode [2%nat; 1%nat] (enc_entries ex_ws))) = map expected ex_ws /\
+  map (fun e => r_content e) (fst (decode [2%nat; 1%nat] (enc_entries ex_ws))) = [bs "hello"; bs "abc"; []].
+Proof.
+  split; [|split; [|split]].
+  - repeat constructor; vm_compute; congruence.
+  - repeat constructor.
+  - vm_compute. reflexivity.
+  - vm_compute. reflexivity.
+Qed.
+
+Definition ex_root : list (bytes * node) :=
+  [ (bs "a", Leaf KBlob ex_oid (bs "1"));
+    (bs "d", Dir [ (bs "x", Leaf KExe ex_oid (bs "2")); (bs "e", Dir [ (bs "y", Leaf KLink ex_oid (bs "a")) ]) ]);
+    (bs "ign", Dir [ (bs "z", Leaf KBlob ex_oid (bs "3")) ]);
+    (bs "sub", Leaf KCommit ex_oid []);
+    (bs "z", Leaf KBlob ex_oid (bs "4")) ].
+Definition ex_ign (p : bytes) : bool := bytes_eqb p (bs "ign").
+
+Example walk_example :
+  names_ok ex_root = true /\
+  map w_path (tree_files ex_ign ex_root) = [bs "a"; bs "d/x"; bs "d/e/y"; bs "z"] /\
+  (exists ws, tree_entries ex_ign ex_root = Ok ws /\ map w_path ws = [bs "a"; bs "z"; bs "d/x"; bs "d/e/y"]).
+Proof.
+  split; [|split].
+  - vm_compute. reflexivity.
+  - vm_compute. reflexivity.
+  - eexists. split; vm_compute; reflexivity.
+Qed.
+
+(* the model is faithful to the code also where the precondition fails: a name with a slash unbalances the stack *)
+Example slash_in_name_breaks_paths :
+  pop_element (push_element (bs "d") (bs "x/y")) = bs "d/x".
+Proof. vm_compute. reflexivity. Qed.
